@@ -181,8 +181,8 @@ Fixpoint c13_pairs (h : list (sop * sres)) : bool :=
   end.
 
 (** ---- C16: removal. The harness brackets every removal by two full dumps:
-         dump = for each id (ascending): GetAll, Heads, GetPeers, GetPolicy; then ListNamespaces,
-         ContentHashes ---- *)
+         dump = ListNamespaces; for each id (ascending): GetAll, Heads, GetPeers, GetPolicy; then
+         ContentHashes, ListNamespaces (the list of documents directly before and after the removal) ---- *)
 Definition obs_empty (r : sres) : bool :=
   match r with
   | REntries [] | RHeads [] | RPeers None => true
@@ -281,7 +281,7 @@ Definition spec_ok (c : case) : bool :=
   if c_prop c =? 7 then scan c07_ok tr0 h
   else if c_prop c =? 13 then c13_pairs h && c13_encodes h
   else if c_prop c =? 15 then scan c15_ok tr0 h
-  else if c_prop c =? 16 then c16_scan (4 * length (c_ids c) + 2) tr0 h [] && scan c16_absent_ok tr0 h
+  else if c_prop c =? 16 then c16_scan (4 * length (c_ids c) + 3) tr0 h [] && scan c16_absent_ok tr0 h
                               && forallb (fun p => match snd p with RBadFingerprint => false | _ => true end) h
   else if c_prop c =? 17 then scan c17_ok tr0 h
   else if c_prop c =? 18 then c18_scan (N.to_nat (nth 0 (c_ids c) 0)) h [] && c13_pairs h
